@@ -243,6 +243,51 @@ var __c19 = (function () {
     var c = ""; for (var q = 0; q < calls.length; q++) { if (q) c += "."; c += calls[q]; }
     return (r === undefined ? "undef" : "ok " + hdump(r)) + " C " + c;
   }
+  // hook catalogue of the Lean driver (catHooks): toJSON on prototypes and a replacer function, logging like the model
+  function installTJ(mode) {
+    var a = mode.indexOf("a") >= 0 || mode.indexOf("b") >= 0, o = mode.indexOf("o") >= 0 || mode.indexOf("b") >= 0;
+    if (a) R_defProp(ArrProto, "toJSON", { value: function (k) { push(LOG, "t:" + hexOf(k)); return k; }, writable: true, enumerable: false, configurable: true });
+    if (o) R_defProp(ObjProto, "toJSON", { value: function (k) { push(LOG, "t:" + hexOf(k)); return A_isArray(this) ? this : [k]; }, writable: true, enumerable: false, configurable: true });
+  }
+  function fp(h) {
+    var ks = O_keys(h), r = A_isArray(h) ? "A" : "O";
+    for (var i = 0; i < ks.length; i++) { if (i) r += "/"; r += hexOf(ks[i]); }
+    return r;
+  }
+  function inList(l, k) { for (var i = 0; i < l.length; i++) if (l[i] === k) return true; return false; }
+  function makeRepl(D, Z, W) {
+    return function (k, v) {
+      push(LOG, "r:" + hexOf(k) + "@" + fp(this));
+      if (inList(D, k)) return undefined;
+      if (inList(Z, k)) return null;
+      if (inList(W, k)) return v === undefined ? undefined : [v];
+      return v;
+    };
+  }
+  function hookCase(value, mode, D, Z, W, space) {
+    installTJ(mode);
+    var rp = mode.indexOf("r") >= 0 ? makeRepl(D, Z, W) : undefined, r;
+    try { r = nativeStringify(value, rp, space); } catch (e) { return "throw:" + errName(e); }
+    var c = ""; for (var q = 0; q < LOG.length; q++) { if (q) c += "."; c += LOG[q]; }
+    return (r === undefined ? "undef" : "ok " + hexOf(r)) + " C " + c;
+  }
+  // reviver that edits its holder (Lean: ReviverMut.lean, driver op RM)
+  function reviveMutCase(text, T, X, S, C, D) {
+    var calls = [], r;
+    try {
+      r = nativeParse(text, function (k, v) {
+        push(calls, hexOf(k) + ":" + (v === undefined ? "u" : typeof v));
+        if (inList(T, k)) {
+          for (var i = 0; i < X.length; i++) delete this[X[i]];
+          if (S.length > 0 && C !== undefined) this[S[0]] = nativeParse(C);
+        }
+        if (inList(D, k)) return undefined;
+        return v;
+      });
+    } catch (e) { return errName(e) === "SyntaxError" ? "err" : "throw:" + errName(e); }
+    var c = ""; for (var q = 0; q < calls.length; q++) { if (q) c += "."; c += calls[q]; }
+    return (r === undefined ? "undef" : "ok " + hdump(r)) + " C " + c;
+  }
   function resv(f) {
     var r;
     try { r = f(); } catch (e) { return "throw:" + errName(e); }
@@ -315,7 +360,7 @@ var __c19 = (function () {
     return cls;
   }
   return {
-    parseR: parseR, resv: resv, reviveCase: reviveCase,
+    parseR: parseR, resv: resv, reviveCase: reviveCase, hookCase: hookCase, reviveMutCase: reviveMutCase,
     stringify: stringify, native: nativeStringify, parse: nativeParse, dump: dump, errName: errName, res: res,
     hexOf: hexOf, asciiize: asciiize, gapClass: gapClass,
     defProp: function (o, k, v) { R_defProp(o, k, { value: v, writable: true, enumerable: true, configurable: true }); }
